@@ -1,4 +1,5 @@
 import Ledger.Proofs.SqlVolumes
+import Ledger.Proofs.SqlNested
 
 /-!
 # `UpdateVolumes`: the generated statement under LeanPG
@@ -76,25 +77,6 @@ theorem updateVolumes_shape (env : Env) (b l : String) (id : Nat) :
     simp [evalReturning, exec_bind, avT, Schema.tbl_accounts_volumes, Table.colNames, evalExpr, lookupColumn,
       Env.scopes, lookupUnqualified, lookupIn, exprOutName]
 
-
-/-- the state with an empty AFTER-trigger queue -/
-def St.clearQ (s : St) : St := { s with afterQ := [] }
-
-@[simp] theorem clearQ_w (s : St) : s.clearQ.w = s.w := rfl
-@[simp] theorem clearQ_xid (s : St) : s.clearQ.xid = s.xid := rfl
-@[simp] theorem clearQ_cid (s : St) : s.clearQ.cid = s.cid := rfl
-
-/-- `runStmt` around a statement that queues no AFTER trigger and only writes one table -/
-theorem exec_runStmt_noAfter (n : Nat) (env : Env) (stmt : Stmt) (s : St) (r : DmlResult) (t : Table)
-    (h : (execStmt (n + 1) env stmt).exec s.clearQ = (.ok r, s.clearQ.withTable t)) :
-    (runStmt (n + 2) env stmt).exec s = (.ok r, s.withTable t) := by
-  rw [runStmt]
-  simp only [exec_bind, exec_get, exec_modify, exec_pure]
-  have h' : (execStmt (n + 1) env stmt).exec { s with afterQ := [] } = (.ok r, s.clearQ.withTable t) := h
-  rw [h']
-  simp only
-  rw [drainAfter]
-  simp [exec_bind, St.withTable, St.clearQ]
 
 /-- the hypotheses on the state in which the statement runs -/
 structure AvState (s : St) (b l : String) (rs : List Ver) (nr : Nat) : Prop where
